@@ -471,6 +471,33 @@ fn numeric1(st: &mut Stats, rng: &mut Rng, m: &Mesh1D<f64, f64>, g: &Grid, s: &S
     for (x, class) in pts { judge_interp(st, m, g, &s.data, x, class); }
 }
 
+/// Grids far from the origin (offset +-2^24..2^32, dyadic, spacing still >= 2^-9): the 1e-7 snapping window and the 1e-6
+/// exclusion zone of the quantifier are ABSOLUTE distances; interpolation between and next to the nodes, nodal values and
+/// the trapezium rule must not depend on where the grid sits.
+fn offset_case(st: &mut Stats, rng: &mut Rng) {
+    let n = rng.usize(2, 12);
+    let nv = rng.usize(1, 3);
+    let mut g = gen_grid(rng, n);
+    let off = (if rng.bool() { 1i64 } else { -1 }) * (1i64 << (rng.int(24, 32) as u32 + g.s));
+    for k in g.k.iter_mut() { *k += off; }
+    let cls = rng.below(3);
+    let data: Vec<Vec<i64>> = (0..n).map(|_| (0..nv).map(|_| rand_val(rng, cls)).collect()).collect();
+    let mut m = Mesh1D::<f64, f64>::new(Vector::create(g.fvec()), nv);
+    for i in 0..n { for v in 0..nv { m[i][v] = data[i][v] as f64; } }
+    let s = State1 { data, lin: vec![None; nv], hist: vec!["offset-grid".into()] };
+    st.count("offset-grid-cases");
+    numeric1(st, rng, &m, &g, &s, false);
+    // dense near-node probes on both sides of every interior node, from just outside the excluded window outwards
+    for i in 1..n.saturating_sub(1) {
+        for _ in 0..2 {
+            let d = rng.logpos(1.001e-6, 2.0e-4);
+            judge_interp(st, &m, &g, &s.data, g.f(i) - d, "near-node-offset-grid");
+            judge_interp(st, &m, &g, &s.data, g.f(i) + d, "near-node-offset-grid");
+        }
+    }
+    st.nontrivial(g.hash(hash_str("offset-grid")));
+}
+
 /// output(file, p) then read(file) into a mesh with the same nvars but unrelated nodes/data
 fn judge_file(st: &mut Stats, rng: &mut Rng, workdir: &str, seed: u64, m: &Mesh1D<f64, f64>, g: &Grid, s: &State1, p: usize) {
     let n = g.n();
@@ -490,7 +517,8 @@ fn judge_file(st: &mut Stats, rng: &mut Rng, workdir: &str, seed: u64, m: &Mesh1
     if call(st, "output1d", "f64", &desc, || m.output(&fname, p)).is_none() { let _ = std::fs::remove_file(&fname); return; }
     st.eval();
     // destination: different node count and garbage contents
-    let n2 = rng.usize(2, 12);
+    // (a third of the time: the SAME node count on a different grid - nothing may survive from the receiver)
+    let n2 = if rng.chance(0.33) { n } else { rng.usize(2, 12) };
     let g2 = gen_grid(rng, n2);
     let mut dst = Mesh1D::<f64, f64>::new(Vector::create(g2.fvec()), nv);
     for i in 0..n2 { for v in 0..nv { dst[i][v] = 777.0 + (i * 4 + v) as f64; } }
@@ -903,6 +931,7 @@ pub fn run(ctx: &Ctx) -> Report {
             }
             return;
         }
+        offset_case(st, rng);
         for _ in 0..10 {
             let nv = rng.usize(1, 4);
             match rng.below(10) {
